@@ -179,11 +179,47 @@ def _global_swap_if_else(root: str) -> None:
                     fh.write(_ast.unparse(tree) + "\n")
 
 
+def _global_continue_to_nesting(root: str) -> None:
+    """behaviour-preserving: inside loop bodies `if c: continue` followed by the rest of the body becomes
+    `if not c: <rest>`"""
+    import ast as _ast
+
+    def rewrite(body):
+        out = []
+        for i, st in enumerate(body):
+            if isinstance(st, _ast.If) and not st.orelse and len(st.body) == 1 and isinstance(st.body[0], _ast.Continue) and i < len(body) - 1:
+                rest = rewrite(body[i + 1:])
+                new = _ast.If(test=_ast.UnaryOp(op=_ast.Not(), operand=st.test), body=rest, orelse=[])
+                out.append(_ast.copy_location(new, st))
+                return out
+            out.append(st)
+        return out
+
+    class T(_ast.NodeTransformer):
+        def visit_For(self, node):
+            self.generic_visit(node)
+            node.body = rewrite(node.body)
+            return node
+
+        visit_While = visit_For
+
+    for d, _, files in os.walk(os.path.join(root, "synrbl")):
+        for f in files:
+            if f.endswith(".py"):
+                p = os.path.join(d, f)
+                with open(p) as fh:
+                    tree = T().visit(_ast.parse(fh.read()))
+                _ast.fix_missing_locations(tree)
+                with open(p, "w") as fh:
+                    fh.write(_ast.unparse(tree) + "\n")
+
+
 GLOBAL_VARIANTS = {
     "global-benign-reformat": _global_reformat,
     "global-benign-shuffle-methods-noop": _global_shuffle,
     "global-benign-rename-locals": _global_rename_locals,
     "global-benign-swap-if-else": _global_swap_if_else,
+    "global-benign-continue-to-nesting": _global_continue_to_nesting,
 }
 
 
